@@ -380,6 +380,62 @@ fn program_strategy() -> BoxedStrategy<Program> {
         .boxed()
 }
 
+/// Detection has no memory: an input translated through a Translator that has
+/// already translated another input (no format named for either) gives the
+/// verdict and bytes it gives on a fresh Translator.
+pub fn check_sequence(a: &[u8], b: &[u8], mode: &Mode, rec: &mut Recorder) -> Result<(), String> {
+    for to in [Fmt::Json, Fmt::Yaml, Fmt::Msgpack] {
+        let alone_a = run_mode(a, mode, None, to);
+        if !alone_a.verdict.is_ok() {
+            rec.class("sequence:first_input_fails");
+            continue;
+        }
+        let alone_b = run_mode(b, mode, None, to);
+        if alone_b.verdict.is_panic() {
+            return Err(format!("panic: {}", alone_b.verdict.text()));
+        }
+        let log = std::rc::Rc::new(std::cell::RefCell::new(Vec::<u8>::new()));
+        struct W(std::rc::Rc<std::cell::RefCell<Vec<u8>>>);
+        impl std::io::Write for W {
+            fn write(&mut self, buf: &[u8]) -> std::io::Result<usize> {
+                self.0.borrow_mut().extend_from_slice(buf);
+                Ok(buf.len())
+            }
+            fn flush(&mut self) -> std::io::Result<()> {
+                Ok(())
+            }
+        }
+        let (va, vb);
+        {
+            let mut t = xt::Translator::new(W(log.clone()), to.xt());
+            va = translator_call(&mut t, a, mode, None);
+            vb = if va.is_ok() { translator_call(&mut t, b, mode, None) } else { Verdict::Ok };
+        }
+        if !va.is_ok() {
+            return Err(format!("[{} -> {}] the first input translates alone but not as the first input of a Translator: {}", mode.class(), to.name(), va.brief()));
+        }
+        let mut expected = alone_a.out.clone();
+        expected.extend_from_slice(&alone_b.out);
+        let got = log.borrow().clone();
+        if vb != alone_b.verdict || got != expected {
+            return Err(format!(
+                "[{} -> {}] an input translated after another one through the same Translator (no format named) differs from translating it alone: after {:?} the input {:?} gave {} / output {:?}; alone {} / output {:?}",
+                mode.class(),
+                to.name(),
+                brief_bytes(a),
+                brief_bytes(b),
+                vb.brief(),
+                brief_bytes(&got[alone_a.out.len().min(got.len())..]),
+                alone_b.verdict.brief(),
+                brief_bytes(&alone_b.out)
+            ));
+        }
+        rec.count(Some(hash_bytes(&[a, b, to.name().as_bytes(), mode.class().as_bytes()])));
+        rec.class("sequence:second_input_checked");
+    }
+    Ok(())
+}
+
 impl Check for C09 {
     fn id(&self) -> &'static str {
         "C09"
@@ -403,13 +459,22 @@ impl Check for C09 {
             Unit::enumerate("handle_exhaustive", 16),
             Unit::gen("handle_random", 8, tier.pick(60_000, 600_000)),
             Unit::enumerate("sizes", 6),
+            Unit::gen("sequence", 16, tier.pick(4000, 40_000)),
         ]
     }
     fn required_classes(&self, _tier: Tier) -> Vec<&'static str> {
-        vec!["detected:json", "detected:msgpack", "detected:yaml", "detected:toml", "undetectable", "family:truncated_msgpack_collection", "family:yaml_first_char_07xx", "family:multi_format_valid", "detected_and_translated", "handle:reader", "handle:slice", "handle:became_slice", "family:toml_below_2MiB_cutoff"]
+        vec!["detected:json", "detected:msgpack", "detected:yaml", "detected:toml", "undetectable", "family:truncated_msgpack_collection", "family:yaml_first_char_07xx", "family:multi_format_valid", "detected_and_translated", "handle:reader", "handle:slice", "handle:became_slice", "family:toml_below_2MiB_cutoff", "sequence:second_input_checked"]
     }
     fn run_unit(&self, unit: &Unit, shard: u32, seed: u64, tier: Tier, rec: &mut Recorder) {
         match unit.name {
+            "sequence" => run_prop(
+                rec,
+                seed,
+                unit.cases,
+                (c09_bytes(), c09_bytes(), sched_strategy(), any::<bool>()),
+                |(a, b, s, slice)| json!({"unit": "sequence", "a": hex(&a.bytes), "b": hex(&b.bytes), "sched": s.to_json(), "slice": slice}),
+                |(a, b, s, slice), r| check_sequence(&a.bytes, &b.bytes, &if *slice { Mode::Slice } else { Mode::Reader(s.clone()) }, r),
+            ),
             "sizes" => {
                 // TOML from a reader is buffered for detection up to (excluding) 2 MiB:
                 // every size below that must be detected exactly as from a slice
@@ -533,6 +598,12 @@ impl Check for C09 {
         }
     }
     fn replay(&self, case: &J) -> Result<(), String> {
+        if case["unit"].as_str() == Some("sequence") {
+            let a = unhex(case["a"].as_str().ok_or("no a")?).ok_or("bad hex")?;
+            let b = unhex(case["b"].as_str().ok_or("no b")?).ok_or("bad hex")?;
+            let mode = if case["slice"].as_bool().unwrap_or(true) { Mode::Slice } else { Mode::Reader(Sched::from_json(&case["sched"]).ok_or("bad sched")?) };
+            return check_sequence(&a, &b, &mode, &mut Recorder::default());
+        }
         if case["unit"].as_str() == Some("handle") {
             return run_program(&Program::from_json(case).ok_or("bad program")?);
         }
